@@ -45,6 +45,18 @@ class Copy:
         self.make_pub = make_pub            # visibility only: `const X` -> `pub const X` (logged)
 
 
+class Lifted:
+    """R17 closure lifting: the `nth` closure literal (`&mut |params| { BODY }`) inside function (file, scope, name) is emitted as
+    a standalone function `sig { BODY' }`, where BODY' is BODY with its final continuation call `cont(args)` replaced by
+    `Ok((args))` - i.e. the function returns what the closure would hand to the continuation.  The captured variables
+    become parameters (listed in `sig`, hand-written); everything else is the closure's own text after R1..R13."""
+
+    def __init__(self, file, scope, name, nth, sig, cont, requires=(), ensures=(), splices=(), props=(), canary=False, key=None):
+        self.file, self.scope, self.name, self.nth, self.sig, self.cont = file, scope, name, nth, sig, cont
+        self.requires, self.ensures, self.splices, self.props, self.canary = list(requires), list(ensures), list(splices), list(props), canary
+        self.key = key or ('%s#closure%d' % (name, nth))
+
+
 class ByteConst:
     """R11: `pub const NAME: &[u8] = b"...";` copied from /repo as an external_body exec const whose `ensures` lists the
     literal's bytes, computed mechanically from the literal text (Verus does not evaluate byte-string literals)."""
